@@ -80,8 +80,12 @@ def fault(k: int, kind: int, drop: bool) -> None:
 
 @harness(
     "C05", "cancel",
-    quick=[dict(sh, _pre=f"c <= {300 if sh['ct'] in ('h2', 'h2prior') else 70}") for sh in _shards(("async",))],
-    thorough=[dict(sh, _pre=f"c <= {320 if sh['ct'] in ('h2', 'h2prior') else 90}") for sh in _shards(("async",))],
+    quick=[dict(sh, _pre=f"c <= {300 if sh['ct'] in ('h2', 'h2prior') else 70}") for sh in _shards(("async",))]
+    + [{"ct": ct, "flavour": "async", "K0": True, "_pre": "c <= 70"} for ct in ("h11", "h11tls", "tunnel")],
+    thorough=[dict(sh, _pre=f"c <= {320 if sh['ct'] in ('h2', 'h2prior') else 90}") for sh in _shards(("async",))]
+    + [dict(sh, K0=True, _pre=f"c <= {320 if sh['ct'] in ('h2', 'h2prior') else 90}") for sh in _shards(("async",))],
+    per_prop={"C04": {"quick": [{"ct": ct, "flavour": "async", "K0": True, "_pre": "c <= 70"} for ct in ("h11", "h11tls", "tunnel")],
+                      "thorough": [dict(sh, K0=True, _pre=f"c <= {320 if sh['ct'] in ('h2', 'h2prior') else 90}") for sh in _shards(("async",))]}},
     example=dict(c=3, one_shot=False, drop=False),
     require=("cancel-delivered", "response-returned"),
     timeout={"quick": 240, "thorough": 900},
@@ -89,7 +93,7 @@ def fault(k: int, kind: int, drop: bool) -> None:
     bounds="one request per run, every suspension point of the run (scheduler steps 0..70, 0..300 for HTTP/2 whose connection set-up alone takes ~200 steps; a larger c means not cancelled), 8 connection types, async classes over the model runtime, max_connections=2",
     outside="cancellation delivered inside shielded sections; more than one cancelled task",
     stubs=STUBS,
-    also=("C06",),
+    also=("C04", "C06"),
 )
 def cancel(c: int, one_shot: bool, drop: bool) -> None:
     """
@@ -104,7 +108,11 @@ def cancel(c: int, one_shot: bool, drop: bool) -> None:
 def _cancel(c: int, one_shot: bool, drop: bool) -> None:
     from .. import scen
 
-    su = Setup(shard("ct", "h11"), True, max_connections=2)
+    from .conc import StreamCounter
+
+    kw = {"max_keepalive_connections": 0} if shard("K0", False) else {}
+    su = Setup(shard("ct", "h11"), True, max_connections=2, **kw)
+    counter = StreamCounter(su, 2, f"cancel:{su.ct}" + (":K0" if kw else ""))
     vrt.RT.cancels.append(("t0", c, one_shot))
 
     async def caller() -> str:
@@ -129,4 +137,5 @@ def _cancel(c: int, one_shot: bool, drop: bool) -> None:
     su.quiescent_slot_oracle()
     su.stream_oracle()
     su.probe_capacity(2)
+    counter.check()
     su.closed_pool_oracle()
